@@ -1,6 +1,7 @@
 package main
 
 import (
+	"runtime"
 	"sync"
 	"fmt"
 	"math/rand"
@@ -492,12 +493,15 @@ func streamEnvAPI(o *Out, r *rand.Rand, n int, thorough bool) {
 			go func(g int) {
 				defer wg.Done()
 				<-start
-				for k := 0; k < 40; k++ {
+				for k := 0; k < 150; k++ {
 					_ = e.Set("x", int64(g*100+k))
 				}
 			}(g)
 		}
 		close(start)
+		for k := 0; k < round%40; k++ {
+			runtime.Gosched() // the delete lands at a different moment of the setters' run every round
+		}
 		e.Delete("x")
 		wg.Wait()
 		o.Sum.Evaluations++
